@@ -201,7 +201,7 @@ func fileBytes(path string) []byte {
 
 func main() {
 	r := hlib.Start()
-	r.Rule = "configurations (user_version, subset of the 5 v1 objects, rows per table, journal mode, foreign table); non-trivial = distinct configuration; exhaustive over user_version∈{-1,0,1,2,3}×2^5 subsets×{empty,rows} with the repo's own DSN, then seeded variants (DELETE journal, foreign table, extreme user_version, other row contents)"
+	r.Rule = "configurations (user_version, subset of the 5 v1 objects, rows per table, journal mode, foreign table); non-trivial = distinct configuration; exhaustive over user_version∈{0,1,2}(thorough: also -1,3)×2^5 subsets×{empty,rows} with the repo's own DSN, newer-version files (user_version 2, 3, max) with the complete or nearly complete v1 schema, rows and an unknown table, then seeded variants (DELETE journal, foreign table, extreme user_version, other row contents)"
 	cache := os.Getenv("WAZERO_CACHE")
 	if cache == "" {
 		cache = filepath.Join(os.TempDir(), "verif-wazero")
@@ -291,6 +291,9 @@ func main() {
 		default:
 			r.Count("uv:>2")
 		}
+		if c.uv > 1 && c.mask == 31 {
+			r.Count("newer-version-file-with-complete-v1-schema:" + out)
+		}
 		switch c.mask {
 		case 0:
 			r.Count("objects:none")
@@ -371,6 +374,20 @@ func main() {
 				run(mk(uv, mask, true, "wal", false, rng.U64()))
 			}
 		}
+	}
+	// files from a newer version as they really look: the complete v1 schema (or all of it but one
+	// object) with rows, optionally next to a table this release does not know, in both journal modes
+	for _, uv := range []int{2, 3, 2147483647} {
+		for _, mask := range []int{31, 15, 30, 23} {
+			for _, foreign := range []bool{false, true} {
+				jm := "wal"
+				if foreign && mask != 31 {
+					jm = "delete"
+				}
+				run(mk(uv, mask, true, jm, foreign, rng.U64()))
+			}
+		}
+		run(mk(uv, 31, true, "delete", false, rng.U64()))
 	}
 	extra := 60
 	if r.Thorough() {
